@@ -16,7 +16,12 @@ import traceback
 
 HERE = os.path.dirname(os.path.abspath(__file__))
 sys.path.insert(0, os.path.dirname(HERE))
-os.environ.setdefault("PYTHONHASHSEED", "0")
+if "PYTHONHASHSEED" not in os.environ:
+    # str hashes seed per-program random streams (abs(hash(id))): without a fixed hash
+    # seed in THIS process (and the workers forked from it) a run is not a function of
+    # VERIF_SEED and a replay file need not reproduce.  Re-execute with the seed set.
+    os.environ["PYTHONHASHSEED"] = "0"
+    os.execv(sys.executable, [sys.executable, os.path.abspath(__file__), *sys.argv[1:]])
 
 from ptverif.common import MachineryError, ensure_repo_on_path, scratch  # noqa: E402
 
